@@ -133,6 +133,9 @@ var requestSpecs = []layerSpec{
 		Want: map[string][]string{
 			"pre[0]": {"f:Tag[7:0]"}, "pre[1]": {"f:Status[7:0]"}, "pre[2]": {"0"}, "pre[3]": {"0"},
 			"pre[4]": {"f:ManagedSystemSessionID[7:0]"}, "pre[5]": {"f:ManagedSystemSessionID[15:8]"}, "pre[6]": {"f:ManagedSystemSessionID[23:16]"}, "pre[7]": {"f:ManagedSystemSessionID[31:24]"},
+			// the key exchange authentication code follows only when the status is OK; a message
+			// reporting an error ends after the session ID
+			"len pre": {"8", "len(f:AuthCode) +8"},
 		}},
 	{Pkg: "pkg/dcmi", Type: "GetPowerReadingReq", Method: "SerializeTo", Ref: "DCMI 1.5 §6.6.1",
 		Want: map[string][]string{"len pre": {"3"}, "pre[0]": {"f:Mode[7:0]"}, "pre[1]": {"0", "ravgByte:f:Period[63:0]()"}, "pre[2]": {"0"}}},
@@ -314,4 +317,17 @@ var sessionHeaderSpecs = []layerSpec{
 			"pre[8]": {"f:ID[7:0]"}, "pre[9]": {"f:ID[15:8]"}, "pre[10]": {"f:ID[23:16]"}, "pre[11]": {"f:ID[31:24]"},
 			"pre[12]": {"f:Sequence[7:0]"}, "pre[13]": {"f:Sequence[15:8]"}, "pre[14]": {"f:Sequence[23:16]"}, "pre[15]": {"f:Sequence[31:24]"},
 		}},
+}
+
+// specsFor: the entries of a specification table for the named layer types.
+func specsFor(all []layerSpec, types ...string) []layerSpec {
+	var out []layerSpec
+	for _, sp := range all {
+		for _, t := range types {
+			if sp.Type == t {
+				out = append(out, sp)
+			}
+		}
+	}
+	return out
 }
